@@ -8,16 +8,21 @@ use std::time::{Duration, Instant};
 mod bar;
 mod c01;
 mod c03;
+#[cfg(feature = "hooks")]
 mod c05;
+#[cfg(feature = "hooks")]
 mod c09;
 mod c10;
+#[cfg(feature = "hooks")]
 mod c11;
+#[cfg(feature = "hooks")]
 mod c12;
 mod c14;
 mod c15;
 mod c16;
 mod c17;
 mod c18;
+mod public;
 
 fn main() {
     let args: Vec<String> = std::env::args().collect();
@@ -37,9 +42,13 @@ fn main() {
 
 fn run(routine: &str, rest: &[String]) -> String {
     match routine {
+        #[cfg(feature = "hooks")]
         "rl_allow" => c05::rl_allow(rest),
+        #[cfg(feature = "hooks")]
         "rl_new" => c05::rl_new(rest),
+        #[cfg(feature = "hooks")]
         "pos_allow" => c05::pos_allow(rest),
+        #[cfg(feature = "hooks")]
         "rl_window" => c05::rl_window(rest),
         "style_build" => c14::style_build(rest),
         "c03_clear_overshoot" => c03::c03_clear_overshoot(rest),
@@ -47,6 +56,7 @@ fn run(routine: &str, rest: &[String]) -> String {
         "c03_skip_recount" => c03::c03_skip_recount(rest),
         "first_line_hazard" => c01::first_line_hazard(rest),
         "cr_hazard" => c01::cr_hazard(rest),
+        #[cfg(feature = "hooks")]
         "pad_field" => c12::pad_field(rest),
         "io_fail_bar" => c18::io_fail_bar(rest),
         "io_fail_multi" => c18::io_fail_multi(rest),
@@ -61,26 +71,34 @@ fn run(routine: &str, rest: &[String]) -> String {
         "bar_hidden" => bar::bar_hidden(rest),
         "multi_order" => bar::multi_order(rest),
         "multi_logs" => bar::multi_logs(rest),
-        "pos_history" => c05::pos_history(rest),
+        "pos_history" => public::pos_history(rest),
         "multi_bottom" => bar::multi_bottom(rest),
         "bar_reuse" => bar::bar_reuse(rest),
         "multi_rate" => bar::multi_rate(rest),
         "multi_removed" => bar::multi_removed(rest),
+        #[cfg(feature = "hooks")]
         "pad_no_panic" => c12::pad_no_panic(rest),
         "io_fail_state" => c18::io_fail_state(rest),
         "multi_finish" => bar::multi_finish(rest),
         "iter_adaptors" => c17::iter_adaptors(rest),
+        #[cfg(feature = "hooks")]
         "est_decay" => c09::est_decay(rest),
+        #[cfg(feature = "hooks")]
         "est_laws" => c09::est_laws(rest),
+        #[cfg(feature = "hooks")]
         "render_keys" => c11::render_keys(rest),
+        "tracker_ticks" => public::tracker_ticks(rest),
+        #[cfg(feature = "hooks")]
         "bar_cells" => c11::bar_cells(rest),
+        #[cfg(feature = "hooks")]
         "render_wide" => c11::render_wide(rest),
+        #[cfg(feature = "hooks")]
         "render_lines" => c11::render_lines(rest),
         "template_fields" => c10::template_fields(rest),
-        "pos_arith" => c05::pos_arith(rest),
+        "pos_arith" => public::pos_arith(rest),
         "template_total" => c10::template_total(rest),
         "template_order" => c10::template_order(rest),
-        _ => format!("{{\"found\": false, \"error\": \"unknown routine {}\"}}", routine),
+        _ => format!("{{\"found\": false, \"error\": \"unknown routine {} (or one that needs the hooks, in a driver built without them)\"}}", routine),
     }
 }
 
